@@ -7,6 +7,12 @@ HERE = os.path.dirname(os.path.abspath(__file__))
 
 # property -> (technique, level text, level note, design ref)
 CLAIMED = {
+    "C16": (
+        "runtime relation monitor on the conversion functions: exhaustive enumeration of the 8-bit domains, dense float lattice aimed at every hue-sextant boundary ±1 ulp plus random triples, round-trip / range / byte-order / saturation oracles, panic capture with debug assertions on; f64 HSL reference reported alongside",
+        "All 2^24 8-bit RGB triples (to_hsl().to_rgb() within 8/255, grays achromatic and lightness kept) and all 2^24 8-bit HSL triples (total); a float lattice incl. every sextant boundary and mid-sextant ±1 ulp read both as HSL and as RGB plus ≥ 10^6 random triples (RGB→HSL→RGB within 1e-4, HSL in range, HSL→RGB in range, HSL→RGB→HSL modulo hue wrap, hue 1 ≡ hue 0, no debug-assertion panic on in-range input); RGBA words (2^24 stratified quick, all 2^32 thorough) for the three packings and rgb↔rgba; float→8-bit clamping incl. NaN, ±inf, out-of-range; 8-bit Affine::add over all 256×511 pairs.",
+        "Hue compared modulo 1 with a tolerance scaled by 1/chroma; the verdict rests on the relations the property states, the f64 reference is informational.",
+        "DESIGN.md §5 C16",
+    ),
     "C15": (
         "runtime structural-invariant monitor on every Mesh returned by build(): index validity, unit normals, normal-vs-winding agreement, signed volume, union-find merge of coincident vertices then directed-edge pairing and Euler characteristic, distance to the intended surface; exhaustive over sector/segment counts",
         "Every sector count 3..32 (thorough 3..64) × segment count 1..16 (1..32) × five radii for cylinder and cone (capped, uncapped, apex 0, base 0), capsule, sphere and torus, the five Platonic solids, boxes with random corners and cubes, and straight-profile lathes over partial azimuth ranges (open: index/normal/winding/surface checks only). Closed solids must be watertight after merging coincident vertices (each directed edge once, its reverse once), have χ = 2 (0 for the torus) and positive signed volume; all normals unit (1e-3) and on the side of (b−a)×(c−a); vertices within 1e-4·extent of the intended surface.",
